@@ -31,11 +31,14 @@ type rsCase struct {
 	FailAt    int               `json:"probe_fail_at,omitempty"`
 	FailMode  int               `json:"probe_fail_mode,omitempty"`
 	Order     []string          `json:"observed_first_cycle_order,omitempty"`
+	PriorInit *facts.State      `json:"earlier_call_facts,omitempty"`
+	PriorMax  uint64            `json:"earlier_call_max_cycle,omitempty"`
 }
 
 func toRSCase(c *val.Case) *rsCase {
 	return &rsCase{Rules: gast.EncodeRules(c.Rules), Text: c.Text, Texts: c.Texts, SoloTexts: c.SoloTexts, Init: c.Init, MaxCycle: c.MaxCycle,
-		ErrOnFail: c.ErrOnFail, ViaGRB: c.ViaGRB, Listeners: c.Listeners, FailAt: c.ProbeFailAt, FailMode: int(c.ProbeMode)}
+		ErrOnFail: c.ErrOnFail, ViaGRB: c.ViaGRB, Listeners: c.Listeners, FailAt: c.ProbeFailAt, FailMode: int(c.ProbeMode),
+		PriorInit: c.PriorInit, PriorMax: c.PriorMaxCycle}
 }
 
 func fromRSCase(r *rsCase) (*val.Case, error) {
@@ -44,7 +47,8 @@ func fromRSCase(r *rsCase) (*val.Case, error) {
 		return nil, err
 	}
 	return &val.Case{Rules: rules, Text: r.Text, Texts: r.Texts, SoloTexts: r.SoloTexts, Init: r.Init, MaxCycle: r.MaxCycle, ErrOnFail: r.ErrOnFail,
-		ViaGRB: r.ViaGRB, Listeners: r.Listeners, ProbeFailAt: r.FailAt, ProbeMode: facts.FailMode(r.FailMode)}, nil
+		ViaGRB: r.ViaGRB, Listeners: r.Listeners, ProbeFailAt: r.FailAt, ProbeMode: facts.FailMode(r.FailMode),
+		PriorInit: r.PriorInit, PriorMaxCycle: r.PriorMax}, nil
 }
 
 // rsGenCfg bundles the knobs of a validated-run property.
@@ -118,6 +122,19 @@ func genRSCase(rt *rapid.T, cfg rsGenCfg) (*val.Case, *gen.RuleSet) {
 		c.ViaGRB = rapid.IntRange(0, 3).Draw(rt, "via_grb") == 0
 	}
 	return c, rs
+}
+
+// maybeUsedBefore makes a quarter of the cases run on an instance that served an earlier call (other
+// facts; a budget of 1 or 2 cycles, so that the earlier call mostly ends with the cycle-limit error, or a
+// normal budget): what the properties say about an execution does not depend on the instance's past.
+func maybeUsedBefore(rt *rapid.T, c *val.Case, rs *gen.RuleSet, cfg gen.StateCfg) bool {
+	if rapid.IntRange(0, 3).Draw(rt, "instance_used_before") != 0 {
+		return false
+	}
+	c.PriorInit = c08GenState(rt, rs, cfg)
+	c.PriorMaxCycle = uint64(rapid.SampledFrom([]int{1, 1, 2, 30}).Draw(rt, "earlier_call_max_cycle"))
+	rs.Feat["instance_used_before"]++
+	return true
 }
 
 func indexes(n int) []int {
